@@ -30,6 +30,9 @@ CONSTANTS Mode,        \* "programs" | "access"
 LeafNames == DOMAIN Leaves
 Lf(n) == Leaves[n]
 
+Tri(m, lower) == [i \in 1..NRows(m) |-> [j \in 1..NCols(m) |->
+                     IF (lower /\ j <= i) \/ (~lower /\ j >= i) THEN m[i][j] ELSE R(0)]]
+
 \* documented meaning of every class
 RECURSIVE LeafValue(_)
 LeafValue(n) ==
@@ -37,11 +40,13 @@ LeafValue(n) ==
   CASE c = "IdentityMatrix" -> MIdentity(l.size)
     [] c \in {"ScaledIdentityMatrix", "PositiveScaledIdentityMatrix"} -> MScale(MIdentity(l.size), l.scalar)
     [] c \in {"DiagonalMatrix", "PositiveDiagonalMatrix"} -> MDiag(l.p1[1])
-    [] c \in {"TriangularMatrix", "DenseSquareMatrix", "DenseSymmetricMatrix", "OrthogonalMatrix",
+    [] c \in {"DenseSquareMatrix", "DenseSymmetricMatrix", "OrthogonalMatrix",
               "DenseDefiniteMatrix", "DensePositiveDefiniteMatrix", "DenseRectangularMatrix"} -> l.p1
-    [] c = "InverseTriangularMatrix" -> MInverse(l.p1)
+    \* triangular classes use only the named triangle of the array they are given
+    [] c = "TriangularMatrix" -> Tri(l.p1, l.lower)
+    [] c = "InverseTriangularMatrix" -> MInverse(Tri(l.p1, l.lower))
     [] c \in {"TriangularFactoredDefiniteMatrix", "TriangularFactoredPositiveDefiniteMatrix"} ->
-         MScale(MMul(l.p1, MTranspose(l.p1)), R(l.sign))
+         MScale(MMul(Tri(l.p1, l.lower), MTranspose(Tri(l.p1, l.lower))), R(l.sign))
     [] c = "DensePositiveDefiniteProductMatrix" -> MMul(l.p1, MMul(l.p2, MTranspose(l.p1)))
     [] c = "ScaledOrthogonalMatrix" -> MScale(l.p1, l.scalar)
     [] c \in {"EigendecomposedSymmetricMatrix", "EigendecomposedPositiveDefiniteMatrix"} ->
